@@ -71,8 +71,23 @@ func runC20(p *Plan) {
 		shared.Elem().Set(DeepCopy(v))
 		sharedArg := shared.Interface()
 		ps := EnumPaths(tr, v, 12)
-		for _, path := range ps.Paths {
+		for pi, path := range ps.Paths {
 			path := path
+			setTxt := []string{"2.5", "7", "-1.25", "300.75", "1e3"}[pi%5]
+			jobs = append(jobs, &raceJob{name: e.Name + ".SetText", run: func() (out string) {
+				defer func() {
+					if rec := recover(); rec != nil {
+						out = "panic"
+					}
+				}()
+				priv := reflect.New(e.Type)
+				priv.Elem().Set(DeepCopy(v))
+				err := e.Ins.SetWithBuffer(priv.Interface(), setTxt, &inspector.ByteBuffer{}, path...)
+				if err != nil {
+					return "err " + serNoCap(priv.Elem())
+				}
+				return serNoCap(priv.Elem())
+			}})
 			jobs = append(jobs,
 				&raceJob{name: e.Name + ".GetTo", run: func() string { return callGetTo(e.Ins, sharedArg, path) }},
 				&raceJob{name: e.Name + ".Compare", run: func() string { _, s := callCmp(e.Ins, sharedArg, 1, "1", false, path); return s }},
@@ -152,6 +167,47 @@ func runC20(p *Plan) {
 			_, err := inspector.GetInspector("static")
 			return b01(err == nil)
 		}})
+	// the assignment library: every destination family from texts that go through atoi / atou / atof
+	for _, txt := range []string{"1.5", "2.25", "-3.75", "100", "7e2", "0.125", "-42", "65536.5", "true", "x"} {
+		txt := txt
+		jobs = append(jobs,
+			&raceJob{name: "Assign.float64", run: func() string {
+				var d float64
+				ok := inspector.Assign(&d, txt)
+				return strconv.FormatFloat(d, 'g', -1, 64) + b01(ok)
+			}},
+			&raceJob{name: "Assign.float32", run: func() string {
+				var d float32
+				ok := inspector.Assign(&d, &txt)
+				return strconv.FormatFloat(float64(d), 'g', -1, 32) + b01(ok)
+			}},
+			&raceJob{name: "Assign.int", run: func() string {
+				var d int64
+				ok := inspector.Assign(&d, []byte(txt))
+				return strconv.FormatInt(d, 10) + b01(ok)
+			}},
+			&raceJob{name: "Assign.uint", run: func() string {
+				var d uint32
+				ok := inspector.Assign(&d, txt)
+				return strconv.FormatUint(uint64(d), 10) + b01(ok)
+			}},
+			&raceJob{name: "Assign.bool", run: func() string {
+				var d bool
+				ok := inspector.Assign(&d, txt)
+				return b01(d) + b01(ok)
+			}},
+			&raceJob{name: "Assign.bytes", run: func() string {
+				var d []byte
+				ok := inspector.AssignBuf(&d, txt, &inspector.ByteBuffer{})
+				return string(d) + b01(ok)
+			}},
+			&raceJob{name: "static.Compare.float", run: func() string {
+				f := 2.25
+				var res bool
+				_ = inspector.StaticInspector{}.Compare(&f, inspector.OpGtq, txt, &res)
+				return b01(res)
+			}})
+	}
 	for _, j := range jobs {
 		j.want = j.run()
 	}
